@@ -76,6 +76,7 @@ def run(repo: Repo, L: Ledger, tier: str):
     _r2(repo, L, proc)
     _r3(repo, L, idx, store, roles)
     _r4(repo, L, idx, proc, roles)
+    _r4_counter(repo, L, idx, proc, roles)
     _r5(repo, L, idx, store, roles)
     _r6(repo, L, idx, store, roles)
 
@@ -453,6 +454,64 @@ def _r3(repo, L, idx, store: Func, roles):
 # ------------------------------------------------------------------------------ R4
 
 
+def _r4_counter(repo, L, idx: Func, proc: Func, roles):
+    """R4 (invariant behind the run offsets): the residue counter equals the number of residues *before the first byte still in
+    the buffer*.  Inside the flush it advances by the length of what was taken out; anywhere else it may only change while the
+    buffer is empty: on every path through the line loop's body to such a change there is a flush (a call that reaches the
+    flush function) or a test that found the buffer empty -- or the change is the reset to a constant in the header arm."""
+    from ..flow import cond_facts
+
+    cnt = roles["length"]
+    loop, _hdr = _line_loop(idx)
+    buf = None
+    for c in walk_shallow(proc.node):
+        if isinstance(c, ast.Call) and isinstance(c.func, ast.Attribute) and c.func.attr == "getvalue" and isinstance(c.func.value, ast.Name):
+            buf = c.func.value.id
+    if buf is None:
+        raise AnalysisError("process_seq_buffer: buffer variable (getvalue) not found")
+    flushers = {proc.name}
+    for nm, nf in idx.nested.items():
+        if any(isinstance(c, ast.Call) and isinstance(c.func, ast.Name) and c.func.id == proc.name for c in walk_shallow(nf.node)):
+            flushers.add(nm)
+    sites = []
+    for n in [x for s_ in loop.body for x in [s_, *walk_shallow(s_)]]:
+        if isinstance(n, ast.AugAssign) and is_name(n.target, cnt):
+            sites.append(n)
+        elif isinstance(n, ast.Assign) and any(is_name(t, cnt) for t in n.targets) and try_fold(n.value, default=NotImplemented) is NotImplemented:
+            sites.append(n)
+    n_paths = 0
+    bad = None
+    for site in sites:
+        for p in PathEnum((0, 1), exc_edges=False).block(loop.body):
+            hit = next((i for i, e in enumerate(p.events) if e.kind == "stmt" and e.node is site), None)
+            if hit is None:
+                continue
+            n_paths += 1
+            empty = False
+            for e in p.events[:hit]:
+                if e.kind in ("stmt", "cond"):
+                    for c in [x for x in [e.node, *walk_shallow(e.node)] if isinstance(x, ast.Call)]:
+                        if isinstance(c.func, ast.Name) and c.func.id in flushers:
+                            empty = True
+                        if isinstance(c.func, ast.Attribute) and is_name(c.func.value, buf) and c.func.attr == "write":
+                            empty = False
+                if e.kind == "cond":
+                    for t, v in cond_facts(e.node, e.val):
+                        if norm(t).replace(" ", "") in (f"{buf}.tell()", f"len({buf}.getvalue())", f"{buf}.getbuffer().nbytes") and v is False:
+                            empty = True
+            if not empty and bad is None:
+                bad = (site, p)
+    if bad:
+        site, p = bad
+        L.fail(
+            "R4", f"{idx.short}:counter-outside-flush",
+            f"'{norm(site)}' advances the residue counter in the line loop on a path that neither flushed the buffer nor found it empty ({p.describe()[:100]}): lines still waiting in the buffer are then scanned at offsets shifted by that amount and joined to what follows the skipped line, so the run coordinates depend on where the last flush happened to fall, i.e. on buffer_size",
+            idx.loc(site), witness={"file": "ACGT lines, a line of N only, ACGT lines; buffer_size larger than a line"},
+        )
+    else:
+        L.ok("R4", f"{idx.short}:counter-outside-flush", f"the residue counter changes outside the flush only with the buffer empty ({len(sites)} site(s), {n_paths} path(s))", idx.loc())
+
+
 def _r4(repo, L, idx, proc: Func, roles):
     loops = [n for n in proc.node.body if isinstance(n, ast.For)]
     if len(loops) != 1:
@@ -783,6 +842,28 @@ def _r6(repo, L, idx, store: Func, roles):
             okle, why_le = False, f"for the header line {pb!r} the terminator width is {sorted(vals_)}, expected {want_}: the fifth .fai column (bytes per line) is wrong and random access seeks to the wrong byte"
             break
     L.check(okle, "R6", idx.short + ":terminator-width", "2 for CRLF, else 1 (7 probe header lines)", why_le, idx.loc())
+    # the record name is the first whitespace-delimited word of the header line (faidx): same constant propagation, more probes
+    nm_var = roles["name"]
+    name_probes = [(b">a\n", "a"), (b">a desc\n", "a"), (b">chr1\tlen=153\n", "chr1"), (b">s2  two spaces\r\n", "s2"), (b"> a\n", "a"), (b">RAND-001\r\n", "RAND-001"), (b">x\x0bvt\n", "x"), (b">n|1.2 d e f\n", "n|1.2")]
+    okn, why_n, n_folded = True, "", 0
+    for pb, want_ in name_probes:
+        env_ = {lv_: pb, nm_var: "", "name": ""}
+        res_ = [r for r in _run_paths(hdr_arm, env_, loop_iters=(0,), stop_at=None) if r["path"].status != "raise"]
+        # the name as it is when the header arm has run: take the last store to it on each path
+        vals_ = set()
+        for r in res_:
+            st_ = [v for (t, v, n) in r["stores"] if t == nm_var]
+            vals_.add(repr(st_[-1]) if st_ else "<unset>")
+            if st_ and (st_[-1] is _UNK or isinstance(st_[-1], _Opq)):
+                vals_ = None
+                break
+        if not res_ or vals_ is None or "<unset>" in vals_:
+            raise AnalysisError(f"{idx.short}: record name '{nm_var}' is not a foldable function of the header line {pb!r}")
+        n_folded += 1
+        if vals_ != {repr(want_)}:
+            okn, why_n = False, f"for the header line {pb!r} the record is named {sorted(vals_)}, faidx names it {want_!r} (the first whitespace-delimited word): the first .fai column is wrong, a tab in it breaks the five-column file, and records that differ only in the description are no longer rejected as duplicates (C04)"
+            break
+    L.check(okn, "R6", idx.short + ":record-name", f"first whitespace-delimited word of the header ({n_folded} probe header lines)", why_n, idx.loc(), witness={"probes": [repr(p_) for p_, _ in name_probes]})
     # fai_row
     fr = info.methods.get("fai_row")
     ok, why = False, "fai_row structure not recognised"
